@@ -203,10 +203,14 @@ class Lib:
         return None
 
     def sv_literal(self, em, lit):
-        nm = 'svlit_%d' % len([k for k in self.gen if k.startswith('svlit_')])
+        k = len([x for x in self.gen if x.startswith('svlit_')])
+        nm = 'svlit_%d' % k
         body = lit[1:-1]
         n = len(bytes(body, 'utf-8').decode('unicode_escape'))
-        self.gen_once(nm, 'DEF_SV_LITERAL(%s, %s, %d)' % (nm, lit, n))
+        if k >= 8:
+            raise Unsupported('more than 8 string literals bound to string_views')
+        self.gen_once(nm, 'DEF_SV_LITERAL(%s, %s, %d, %d)' % (nm, lit, n, k))
+        em.global_init.insert(0, 'svlit_tab[%d] = %s;' % (k, lit))
         return '%s()' % nm
 
     # --------------------------------------------------------------- calls
